@@ -1251,3 +1251,388 @@ Proof.
   subst o1. assert (ao_since q <=? k = true) as -> by (apply Z.leb_le; assumption).
   apply find_del_same. assumption.
 Qed.
+
+(* ------------------------------------------------------------------ C11: fresh, ordered values *)
+
+(* a message with an Observe value for (r, s, t): a notification or an accepted registration *)
+Definition ac_message (e : ob_op * list ob_out) (r s : Z) (t : ob_tok) (v : Z) : Prop :=
+  (exists k con, In (ONotify k r s t v con) (snd e)) \/
+  (exists o, e = (OpRegister r s t o, [ORegResp r s t (Some v)])).
+
+(* a stretch of history during which (r, s, t) stays registered; counts the changes of r *)
+Fixpoint ac_keep (c : ac_cfg) (r s : Z) (t : ob_tok) (st : ac_state)
+                 (tr : list (ob_op * list ob_out)) : option (ac_state * Z) :=
+  match tr with
+  | [] => Some (st, 0)
+  | e :: tl =>
+      match ac_step c st e with
+      | AcOk st' =>
+          if ac_reg st' r s t then
+            match ac_keep c r s t st' tl with
+            | Some (st2, n) => Some (st2, n + (if ac_is_change (fst e) r then 1 else 0))
+            | None => None
+            end
+          else None
+      | AcBad _ => None
+      end
+  end.
+
+Lemma ac_cur_bump : forall o, ac_cur (ac_bump o) = (ac_cur o + 1) mod ob_M.
+Proof.
+  intro o. unfold ac_cur, ac_bump, ob_M. cbn. rewrite Z.add_assoc.
+  rewrite Z.add_mod_idemp_l by lia. reflexivity.
+Qed.
+
+Lemma ac_cur_mod : forall o, ac_cur o mod ob_M = ac_cur o.
+Proof. intro o. unfold ac_cur, ob_M. apply Z.mod_mod. lia. Qed.
+
+(* one accepted entry: the current value moves by exactly the changes of the resource *)
+Lemma ac_step_cur : forall c st op outs st' r s t o o',
+  ac_wf (as_res st) -> ac_step c st (op, outs) = AcOk st' ->
+  ac_entry st r s t = Some o -> ac_entry st' r s t = Some o' ->
+  ac_cur o' = (ac_cur o + (if ac_is_change op r then 1 else 0)) mod ob_M.
+Proof.
+  intros c st op outs st' r s t o o' Hwf H E0 E1.
+  destruct (ac_step_entry c st op outs st' r s t o' Hwf H E1)
+    as [[q [Q [_ ->]]]|[[q [ca [k [v [con [-> [Q [_ [Hv [_ [_ [_ ->]]]]]]]]]]]]|
+        [[q [opts [v [-> [_ [Q [Hv ->]]]]]]]|[opts [v [_ [_ [Q _]]]]]]]]; try congruence.
+  - rewrite Q in E0. inversion E0; subst q. destruct (ac_is_change op r).
+    + apply ac_cur_bump.
+    + rewrite Z.add_0_r, ac_cur_mod. reflexivity.
+  - rewrite Q in E0. inversion E0; subst q. cbn [ac_is_change].
+    unfold ac_cur at 1, ac_after_notify. cbn. rewrite !Z.add_0_r, Hv, !ac_cur_mod. reflexivity.
+  - rewrite Q in E0. inversion E0; subst q. cbn [ac_is_change].
+    unfold ac_cur at 1, ac_refreshed. cbn. rewrite !Z.add_0_r, Hv, !ac_cur_mod. reflexivity.
+Qed.
+
+Lemma ac_keep_cur : forall c r s t tr st st' n o,
+  ac_wf (as_res st) -> ac_entry st r s t = Some o -> ac_keep c r s t st tr = Some (st', n) ->
+  ac_wf (as_res st') /\ 0 <= n /\
+  exists o', ac_entry st' r s t = Some o' /\ ac_cur o' = (ac_cur o + n) mod ob_M.
+Proof.
+  intros c r s t. induction tr as [|[op outs] tl IH]; intros st st' n o Hwf E0 H; cbn [ac_keep] in H.
+  - inversion H; subst. split; [assumption|]. split; [lia|]. exists o. split; [assumption|].
+    rewrite Z.add_0_r, ac_cur_mod. reflexivity.
+  - destruct (ac_step c st (op, outs)) as [st1|] eqn:E; [|discriminate].
+    destruct (ac_reg st1 r s t) eqn:R1; [|discriminate]. unfold ac_reg in R1.
+    destruct (ac_entry st1 r s t) as [o1|] eqn:E1; [|discriminate].
+    destruct (ac_keep c r s t st1 tl) as [[st2 n2]|] eqn:K; [|discriminate]. inversion H; subst st' n.
+    pose proof (ac_step_wf _ _ _ _ Hwf E) as Hwf1.
+    destruct (IH st1 st2 n2 o1 Hwf1 E1 K) as [W [Hn [o' [E2 C2]]]].
+    split; [assumption|]. cbn [fst]. split; [destruct (ac_is_change op r); lia|].
+    exists o'. split; [assumption|]. rewrite C2.
+    rewrite (ac_step_cur c st op outs st1 r s t o o1 Hwf E E0 E1).
+    unfold ob_M. rewrite Z.add_mod_idemp_l by lia. f_equal. lia.
+Qed.
+
+(* the value of a message is the observer's current value: before it (if the observer was
+   registered) and after it *)
+Lemma ac_message_before : forall c st e st' r s t v o,
+  ac_wf (as_res st) -> ac_step c st e = AcOk st' -> ac_message e r s t v ->
+  ac_entry st r s t = Some o -> v = ac_cur o.
+Proof.
+  intros c st [op outs] st' r s t v o Hwf H [[k [con Hin]]|[opts Heq]] E0.
+  - cbn [snd] in Hin. destruct op; cbn [ac_step] in H;
+      try (apply ac_quiet_inv in H; destruct H as [-> _]; destruct Hin).
+    + unfold ac_register in H. destruct (ac_get r0 (as_res st)).
+      * destruct outs as [|o1 [|o2 outs]]; [discriminate | | destruct o1; discriminate].
+        destruct o1; try discriminate. destruct Hin as [Heq|[]]. discriminate.
+      * destruct outs; [destruct Hin | discriminate].
+    + unfold ac_iostep in H.
+      destruct (ac_outs c (mk_aw (as_res st) (as_fl st) (as_nk st) (as_sent st) ca) outs) as [w|] eqn:E;
+        [|discriminate].
+      destruct (outs_entry c r s t outs _ w o E Hwf E0) as [[I1 _]|[k' [v' [con' [_ [I2 [_ [_ [I5 _]]]]]]]]].
+      * exfalso. eapply I1. eassumption.
+      * destruct (I5 _ _ _ Hin) as [_ [-> _]]. assumption.
+    + unfold ac_delete in H. destruct (ac_get r0 (as_res st)) as [res|].
+      * destruct (ac_gone_ok r0 (ar_obs res) outs) eqn:GO; [|discriminate]. exfalso. clear - GO Hin.
+        revert GO. induction outs as [|o0 outs IH]; [destruct Hin|]. cbn [ac_gone_ok].
+        destruct o0; try discriminate. intro GO. destruct Hin as [Heq|Hin]; [discriminate|].
+        apply andb_true_iff in GO. destruct GO as [_ GO]. apply IH; assumption.
+      * destruct outs; [destruct Hin | discriminate].
+  - inversion Heq; subst op outs. cbn [ac_step] in H. unfold ac_register in H. unfold ac_entry, ac_find in E0.
+    destruct (ac_get r (as_res st)) as [res|]; [|discriminate].
+    rewrite !Z.eqb_refl, ob_bytes_eqb_refl in H. cbn [andb] in H. rewrite E0 in H.
+    destruct (v =? (ao_val o + ao_chg o) mod ob_M) eqn:Ev; [|discriminate]. apply Z.eqb_eq. assumption.
+Qed.
+
+Lemma ac_message_after : forall c st e st' r s t v o',
+  ac_wf (as_res st) -> ac_step c st e = AcOk st' -> ac_message e r s t v ->
+  ac_entry st' r s t = Some o' -> ac_cur o' = v /\ ao_chg o' = 0.
+Proof.
+  intros c st [op outs] st' r s t v o' Hwf H M E1.
+  destruct (ac_step_entry c st op outs st' r s t o' Hwf H E1)
+    as [[q [Q [[F1 F2] _]]]|[[q [ca [k [v1 [con [-> [Q [Hin [Hv [_ [_ [Hu ->]]]]]]]]]]]]|
+        [[q [opts [v1 [-> [-> [Q [Hv ->]]]]]]]|[opts [v1 [-> [-> [Q [Hr ->]]]]]]]]].
+  - exfalso. destruct M as [[k [con Hin]]|[opts Heq]]; [eapply F1; eassumption | eapply F2; eassumption].
+  - destruct M as [[k' [con' Hin']]|[opts Heq]]; [|discriminate]. cbn [snd] in Hin'.
+    destruct (Hu _ _ _ Hin') as [_ [-> _]]. unfold ac_cur, ac_after_notify. cbn.
+    split; [|reflexivity]. rewrite Z.add_0_r, Hv. apply ac_cur_mod.
+  - destruct M as [[k' [con' Hin']]|[opts' Heq]].
+    + cbn [snd] in Hin'. destruct Hin' as [Heq|[]]. discriminate.
+    + inversion Heq; subst. unfold ac_cur, ac_refreshed. cbn. split; [|reflexivity].
+      rewrite Z.add_0_r. apply ac_cur_mod.
+  - destruct M as [[k' [con' Hin']]|[opts' Heq]].
+    + cbn [snd] in Hin'. destruct Hin' as [Heq|[]]. discriminate.
+    + inversion Heq; subst. unfold ac_cur. cbn. split; [|reflexivity].
+      rewrite Z.add_0_r. apply Z.mod_small. assumption.
+Qed.
+
+(* C11: two messages to the same registration, n changes of the resource between them:
+   the second carries the first value plus n (mod 2^24) *)
+Theorem ac_values_track_changes : forall c st0 e1 st1 mid st2 n e2 st3 r s t v1 v2,
+  ac_wf (as_res st0) ->
+  ac_step c st0 e1 = AcOk st1 -> ac_message e1 r s t v1 -> ac_reg st1 r s t = true ->
+  ac_keep c r s t st1 mid = Some (st2, n) ->
+  ac_step c st2 e2 = AcOk st3 -> ac_message e2 r s t v2 ->
+  0 <= n /\ v2 = (v1 + n) mod ob_M.
+Proof.
+  intros c st0 e1 st1 mid st2 n e2 st3 r s t v1 v2 Hwf H1 M1 R1 K H2 M2.
+  unfold ac_reg in R1. destruct (ac_entry st1 r s t) as [o1|] eqn:E1; [|discriminate].
+  pose proof (ac_step_wf _ _ _ _ Hwf H1) as Hwf1.
+  destruct (ac_message_after _ _ _ _ _ _ _ _ _ Hwf H1 M1 E1) as [C1 _].
+  destruct (ac_keep_cur _ _ _ _ _ _ _ _ _ Hwf1 E1 K) as [Hwf2 [Hn [o2 [E2 C2]]]].
+  split; [assumption|]. rewrite (ac_message_before _ _ _ _ _ _ _ _ _ Hwf2 H2 M2 E2), C2, C1. reflexivity.
+Qed.
+
+(* RFC 7641 freshness of the later value, given fewer than 2^23 changes in between *)
+Corollary ac_values_fresh : forall v1 v2 n,
+  0 <= v1 < ob_M -> v2 = (v1 + n) mod ob_M -> 1 <= n < 8388608 ->
+  1 <= (v2 - v1) mod ob_M < 8388608.
+Proof.
+  intros v1 v2 n H1 H2 Hn. subst v2. unfold ob_M in *.
+  replace (((v1 + n) mod 16777216 - v1) mod 16777216) with (n mod 16777216).
+  - rewrite Z.mod_small; lia.
+  - rewrite Zminus_mod_idemp_l. f_equal. lia.
+Qed.
+
+(* ------------------------------------------------------------------ no repeated values, CON cadence *)
+
+Lemma ac_notify_checks : forall c st ca outs st' k r s t v con o,
+  ac_wf (as_res st) -> ac_step c st (OpIoStep ca, outs) = AcOk st' ->
+  In (ONotify k r s t v con) outs -> ac_entry st r s t = Some o ->
+  v = ac_cur o /\ (1 <= ao_chg o \/ ao_weak o = true) /\
+  (ac_mode c r <> 2 -> (if con then 0 else ao_run o + 1) <= cf_max_non c) /\
+  (ac_entry st' r s t = Some (ac_after_notify o v con k) \/ ac_entry st' r s t = None).
+Proof.
+  intros c st ca outs st' k r s t v con o Hwf H Hin E0. cbn [ac_step] in H. unfold ac_iostep in H.
+  destruct (ac_outs c (mk_aw (as_res st) (as_fl st) (as_nk st) (as_sent st) ca) outs) as [w|] eqn:E;
+    [|discriminate].
+  destruct (ac_all_settled c (aw_cnt w) (aw_res w)); [|discriminate]. inversion H; subst st'.
+  unfold ac_entry. cbn [as_res].
+  destruct (outs_entry c r s t outs _ w o E Hwf E0)
+    as [[I1 _]|[k' [v' [con' [_ [I2 [I3 [I4 [I5 I6]]]]]]]]].
+  - exfalso. eapply I1. eassumption.
+  - destruct (I5 _ _ _ Hin) as [-> [-> ->]]. auto.
+Qed.
+
+(* a stretch without any message to (r, s, t): its entry only counts the changes *)
+Lemma ac_keep_quiet : forall c r s t tr st st' n o,
+  ac_wf (as_res st) -> ac_entry st r s t = Some o -> ac_keep c r s t st tr = Some (st', n) ->
+  (forall e, In e tr -> ac_msg_free (fst e) (snd e) r s t) ->
+  exists o', ac_entry st' r s t = Some o' /\ ao_chg o' = ao_chg o + n /\
+             ao_weak o' = ao_weak o /\ ao_run o' = ao_run o /\ ao_val o' = ao_val o.
+Proof.
+  intros c r s t. induction tr as [|[op outs] tl IH]; intros st st' n o Hwf E0 H Hq; cbn [ac_keep] in H.
+  - inversion H; subst. exists o. repeat split; try assumption; lia.
+  - destruct (ac_step c st (op, outs)) as [st1|] eqn:E; [|discriminate].
+    destruct (ac_reg st1 r s t) eqn:R1; [|discriminate]. unfold ac_reg in R1.
+    destruct (ac_entry st1 r s t) as [o1|] eqn:E1; [|discriminate].
+    destruct (ac_keep c r s t st1 tl) as [[st2 n2]|] eqn:K; [|discriminate]. inversion H; subst st' n.
+    pose proof (ac_step_wf _ _ _ _ Hwf E) as Hwf1.
+    destruct (IH st1 st2 n2 o1 Hwf1 E1 K (fun e He => Hq e (or_intror He))) as [o' [E2 [C1 [C2 [C3 C4]]]]].
+    destruct (Hq (op, outs) (or_introl eq_refl)) as [F1 F2]. cbn [fst snd] in F1, F2.
+    destruct (ac_step_entry c st op outs st1 r s t o1 Hwf E E1)
+      as [[q [Q [_ Ho1]]]|[[q [ca [k [v [con [_ [_ [Hin _]]]]]]]]|
+          [[q [opts [v [-> [-> _]]]]]|[opts [v [-> [-> _]]]]]]].
+    + rewrite Q in E0. inversion E0; subst q. exists o'. split; [assumption|]. cbn [fst].
+      destruct (ac_is_change op r); subst o1; cbn in *; repeat split; try congruence; lia.
+    + exfalso. eapply F1. eassumption.
+    + exfalso. eapply F2. reflexivity.
+    + exfalso. eapply F2. reflexivity.
+Qed.
+
+(* C11: a notification never repeats the value of the previous notification - between two
+   consecutive notifications to one observer the resource has changed at least once *)
+Theorem ac_notifications_differ : forall c st0 ca1 outs1 st1 mid st2 n ca2 outs2 st3 r s t k1 v1 c1 k2 v2 c2,
+  ac_wf (as_res st0) ->
+  ac_step c st0 (OpIoStep ca1, outs1) = AcOk st1 -> In (ONotify k1 r s t v1 c1) outs1 ->
+  ac_reg st1 r s t = true ->
+  ac_keep c r s t st1 mid = Some (st2, n) ->
+  (forall e, In e mid -> ac_msg_free (fst e) (snd e) r s t) ->
+  ac_step c st2 (OpIoStep ca2, outs2) = AcOk st3 -> In (ONotify k2 r s t v2 c2) outs2 ->
+  1 <= n /\ v2 = (v1 + n) mod ob_M.
+Proof.
+  intros c st0 ca1 outs1 st1 mid st2 n ca2 outs2 st3 r s t k1 v1 c1 k2 v2 c2 Hwf H1 I1 R1 K Hq H2 I2.
+  split.
+  - unfold ac_reg in R1. destruct (ac_entry st1 r s t) as [o1|] eqn:E1; [|discriminate].
+    pose proof (ac_step_wf _ _ _ _ Hwf H1) as Hwf1.
+    (* after the first notification: nothing missed, not weak *)
+    assert (Ho1 : ao_chg o1 = 0 /\ ao_weak o1 = false).
+    { destruct (ac_step_entry c st0 _ _ st1 r s t o1 Hwf H1 E1)
+        as [[q [_ [[F1 _] _]]]|[[q [ca [k [v [con [_ [_ [_ [_ [_ [_ [_ ->]]]]]]]]]]]]|
+            [[q [opts [v [Hop _]]]]|[opts [v [Hop _]]]]]]; try discriminate.
+      - exfalso. eapply F1. eassumption.
+      - cbn. auto. }
+    destruct Ho1 as [Hc1 Hw1].
+    destruct (ac_keep_quiet _ _ _ _ _ _ _ _ _ Hwf1 E1 K Hq) as [o2 [E2 [C1 [C2 _]]]].
+    destruct (ac_keep_cur _ _ _ _ _ _ _ _ _ Hwf1 E1 K) as [Hwf2 _].
+    destruct (ac_notify_checks _ _ _ _ _ _ _ _ _ _ _ _ Hwf2 H2 I2 E2) as [_ [Hchk _]].
+    destruct Hchk as [Hchk|Hchk]; [lia | congruence].
+  - eapply (ac_values_track_changes c st0 _ st1 mid st2 n _ st3 r s t v1 v2); try eassumption.
+    + left. exists k1, c1. assumption.
+    + left. exists k2, c2. assumption.
+Qed.
+
+(* a stretch without notifications to (r, s, t) keeps its count of non-confirmables *)
+Lemma ac_keep_run : forall c r s t tr st st' n o,
+  ac_wf (as_res st) -> ac_entry st r s t = Some o -> ac_keep c r s t st tr = Some (st', n) ->
+  (forall e, In e tr -> ac_no_notify r s t (snd e)) ->
+  ac_wf (as_res st') /\ exists o', ac_entry st' r s t = Some o' /\ ao_run o' = ao_run o.
+Proof.
+  intros c r s t. induction tr as [|[op outs] tl IH]; intros st st' n o Hwf E0 H Hq; cbn [ac_keep] in H.
+  - inversion H; subst. split; [assumption|]. exists o. auto.
+  - destruct (ac_step c st (op, outs)) as [st1|] eqn:E; [|discriminate].
+    destruct (ac_reg st1 r s t) eqn:R1; [|discriminate]. unfold ac_reg in R1.
+    destruct (ac_entry st1 r s t) as [o1|] eqn:E1; [|discriminate].
+    destruct (ac_keep c r s t st1 tl) as [[st2 n2]|] eqn:K; [|discriminate]. inversion H; subst st' n.
+    pose proof (ac_step_wf _ _ _ _ Hwf E) as Hwf1.
+    destruct (IH st1 st2 n2 o1 Hwf1 E1 K (fun e He => Hq e (or_intror He))) as [W [o' [E2 C1]]].
+    split; [assumption|]. exists o'. split; [assumption|]. rewrite C1.
+    pose proof (Hq (op, outs) (or_introl eq_refl)) as F1. cbn [snd] in F1.
+    destruct (ac_step_entry c st op outs st1 r s t o1 Hwf E E1)
+      as [[q [Q [_ Ho1]]]|[[q [ca [k [v [con [_ [_ [Hin _]]]]]]]]|
+          [[q [opts [v [_ [_ [Q [_ Ho1]]]]]]]|[opts [v [_ [_ [Q _]]]]]]]].
+    + rewrite Q in E0. inversion E0; subst q. destruct (ac_is_change op r); subst o1; reflexivity.
+    + exfalso. eapply F1. eassumption.
+    + rewrite Q in E0. inversion E0; subst q o1. reflexivity.
+    + congruence.
+Qed.
+
+(* a run of consecutive NON notifications to one registration, with anything but notifications
+   to it in between *)
+Fixpoint ac_non_chain (c : ac_cfg) (r s : Z) (t : ob_tok) (st : ac_state)
+                      (segs : list (list (ob_op * list ob_out) * (ob_op * list ob_out))) : Prop :=
+  match segs with
+  | [] => True
+  | (mid, e) :: tl =>
+      exists st2 n st3 ca outs k v,
+        ac_keep c r s t st mid = Some (st2, n) /\
+        (forall e', In e' mid -> ac_no_notify r s t (snd e')) /\
+        e = (OpIoStep ca, outs) /\ ac_step c st2 e = AcOk st3 /\
+        In (ONotify k r s t v false) outs /\ ac_reg st3 r s t = true /\
+        ac_non_chain c r s t st3 tl
+  end.
+
+(* C11: at least every (COAP_OBS_MAX_NON + 1)-th notification is confirmable: a run of
+   non-confirmable notifications to one observer is at most COAP_OBS_MAX_NON long *)
+Theorem ac_con_cadence : forall c r s t segs st o,
+  ac_mode c r <> 2 -> ac_wf (as_res st) -> ac_entry st r s t = Some o ->
+  ac_non_chain c r s t st segs ->
+  ao_run o + Z.of_nat (length segs) <= Z.max (ao_run o) (cf_max_non c).
+Proof.
+  intros c r s t. induction segs as [|[mid e] tl IH]; intros st o Hm Hwf E0 H; cbn [length ac_non_chain] in *.
+  - lia.
+  - destruct H as [st2 [n [st3 [ca [outs [k [v [K [Hq [-> [H2 [Hin [R3 Hc]]]]]]]]]]]]].
+    destruct (ac_keep_run _ _ _ _ _ _ _ _ _ Hwf E0 K Hq) as [Hwf2 [o2 [E2 C2]]].
+    destruct (ac_notify_checks _ _ _ _ _ _ _ _ _ _ _ _ Hwf2 H2 Hin E2) as [_ [_ [Hrun Hafter]]].
+    specialize (Hrun Hm). cbn in Hrun. unfold ac_reg in R3.
+    destruct Hafter as [E3|E3]; rewrite E3 in R3; [|discriminate].
+    pose proof (ac_step_wf _ _ _ _ Hwf2 H2) as Hwf3.
+    specialize (IH st3 _ Hm Hwf3 E3 Hc). unfold ac_after_notify in IH. cbn in IH. lia.
+Qed.
+
+(* ------------------------------------------------------------------ C11: the latest state, eventually *)
+
+Definition ac_out_con (s : Z) (o : ob_out) : Z :=
+  match o with
+  | ONotify _ _ s' _ _ true => if s' =? s then 1 else 0
+  | OErr _ _ s' _ true => if s' =? s then 1 else 0
+  | _ => 0
+  end.
+
+Fixpoint ac_count_con (s : Z) (outs : list ob_out) : Z :=
+  match outs with
+  | [] => 0
+  | o :: tl => ac_out_con s o + ac_count_con s tl
+  end.
+
+Lemma out_step_cnt : forall c w o w' s,
+  ac_out_step c w o = inl w' -> ob_ca_get (aw_cnt w') s = ob_ca_get (aw_cnt w) s + ac_out_con s o.
+Proof.
+  intros c w o w' s H. destruct o as [k r0 s0 t0 v con|k r0 s0 t0 con| |];
+    cbn [ac_out_step] in H; try discriminate.
+  - destruct (negb (k =? aw_nk w)); [discriminate|].
+    destruct (ac_get r0 (aw_res w)) as [res|]; [|discriminate].
+    destruct (ob_find (ac_obs_is s0 t0) (ar_obs res)) as [e|]; [|discriminate].
+    destruct (negb (v =? (ao_val e + ao_chg e) mod ob_M)); [discriminate|].
+    destruct (negb ((1 <=? ao_chg e) || ao_weak e)); [discriminate|].
+    match type of H with (if ?b then _ else _) = _ => destruct b; [discriminate|] end.
+    inversion H; subst w'. unfold ac_note. cbn [aw_cnt ac_out_con]. destruct con; [|lia].
+    unfold ob_ca_inc. cbn [ob_ca_get]. destruct (s0 =? s) eqn:E; [|lia]. apply Z.eqb_eq in E. subst. lia.
+  - destruct (negb (k =? aw_nk w)); [discriminate|].
+    destruct (ac_get r0 (aw_res w)) as [res|]; [|discriminate].
+    destruct (ob_find (ac_obs_is s0 t0) (ar_obs res)) as [e|]; [|discriminate].
+    inversion H; subst w'. unfold ac_note. cbn [aw_cnt ac_out_con]. destruct con; [|lia].
+    unfold ob_ca_inc. cbn [ob_ca_get]. destruct (s0 =? s) eqn:E; [|lia]. apply Z.eqb_eq in E. subst. lia.
+Qed.
+
+Lemma outs_cnt : forall c s outs w w',
+  ac_outs c w outs = inl w' -> ob_ca_get (aw_cnt w') s = ob_ca_get (aw_cnt w) s + ac_count_con s outs.
+Proof.
+  intros c s. induction outs as [|o outs IH]; intros w w' H; cbn [ac_outs ac_count_con] in *.
+  - inversion H; subst. lia.
+  - destruct (ac_out_step c w o) as [w1|] eqn:E; [|discriminate].
+    rewrite (IH w1 w' H), (out_step_cnt _ _ _ _ s E). lia.
+Qed.
+
+(* C11: once the I/O loop has run, every registered observer either has been sent the current
+   value (ao_chg = 0: no change since its last message, see ac_chg_counts_changes) or sits
+   behind a full NSTART window: con_active at the start of the step plus the confirmable
+   messages of this step to its session reach NSTART.  The same holds after every later step,
+   so the first step that finds a free slot delivers the then-current value. *)
+Theorem ac_latest_after_step : forall c st ca outs st' r s t o',
+  ac_step c st (OpIoStep ca, outs) = AcOk st' -> ac_entry st' r s t = Some o' ->
+  ao_chg o' = 0 \/ cf_nstart c <= ob_ca_get ca s + ac_count_con s outs.
+Proof.
+  intros c st ca outs st' r s t o' H E1. cbn [ac_step] in H. unfold ac_iostep in H.
+  destruct (ac_outs c (mk_aw (as_res st) (as_fl st) (as_nk st) (as_sent st) ca) outs) as [w|] eqn:E;
+    [|discriminate].
+  destruct (ac_all_settled c (aw_cnt w) (aw_res w)) eqn:S; [|discriminate]. inversion H; subst st'.
+  unfold ac_entry, ac_find in E1. cbn [as_res] in E1.
+  destruct (ac_get r (aw_res w)) as [y|] eqn:G; [|discriminate].
+  apply ac_get_in in G. destruct G as [Hy _]. apply ob_find_some in E1. destruct E1 as [Ho Hm].
+  unfold ac_all_settled in S. rewrite forallb_forall in S. specialize (S y Hy).
+  rewrite forallb_forall in S. specialize (S o' Ho). unfold ac_settled in S.
+  unfold ac_obs_is in Hm. apply andb_true_iff in Hm. destruct Hm as [Hs _]. apply Z.eqb_eq in Hs.
+  apply orb_true_iff in S. destruct S as [S|S]; [left; apply Z.eqb_eq; assumption | right].
+  apply Z.leb_le in S. rewrite Hs in S. rewrite (outs_cnt c s outs _ w E) in S. cbn [aw_cnt] in S. exact S.
+Qed.
+
+(* the meaning of ao_chg: the number of changes of the resource since the observer's last message *)
+Theorem ac_chg_counts_changes : forall c st0 e1 st1 mid st2 n r s t v1,
+  ac_wf (as_res st0) ->
+  ac_step c st0 e1 = AcOk st1 -> ac_message e1 r s t v1 -> ac_reg st1 r s t = true ->
+  ac_keep c r s t st1 mid = Some (st2, n) ->
+  (forall e, In e mid -> ac_msg_free (fst e) (snd e) r s t) ->
+  exists o2, ac_entry st2 r s t = Some o2 /\ ao_chg o2 = n /\ ao_val o2 = v1.
+Proof.
+  intros c st0 e1 st1 mid st2 n r s t v1 Hwf H1 M1 R1 K Hq.
+  unfold ac_reg in R1. destruct (ac_entry st1 r s t) as [o1|] eqn:E1; [|discriminate].
+  pose proof (ac_step_wf _ _ _ _ Hwf H1) as Hwf1.
+  destruct (ac_message_after _ _ _ _ _ _ _ _ _ Hwf H1 M1 E1) as [C1 C0].
+  destruct (ac_keep_quiet _ _ _ _ _ _ _ _ _ Hwf1 E1 K Hq) as [o2 [E2 [A1 [_ [_ A4]]]]].
+  exists o2. split; [assumption|]. split; [lia|].
+  (* the value field after a message is the value itself *)
+  rewrite A4. unfold ac_cur in C1. rewrite C0, Z.add_0_r in C1.
+  assert (Hr : 0 <= ao_val o1 < ob_M).
+  { destruct e1 as [op outs].
+    destruct (ac_step_entry c st0 op outs st1 r s t o1 Hwf H1 E1)
+      as [[q [_ [[F1 F2] _]]]|[[q [ca [k [v [con [_ [_ [_ [Hv [_ [_ [_ ->]]]]]]]]]]]]|
+          [[q [opts [v [_ [_ [_ [Hv ->]]]]]]]|[opts [v [_ [_ [_ [Hr ->]]]]]]]]].
+    - exfalso. destruct M1 as [[k [con Hin]]|[opts Heq]]; [eapply F1; eassumption | eapply F2; eassumption].
+    - cbn. subst v. unfold ac_cur, ob_M. apply Z.mod_pos_bound. lia.
+    - cbn. subst v. unfold ac_cur, ob_M. apply Z.mod_pos_bound. lia.
+    - cbn. assumption. }
+  rewrite Z.mod_small in C1; assumption.
+Qed.
